@@ -12,6 +12,7 @@ RULE = ('cases = 5 base models (pair with custom form + table form + [Species]; 
         'other sections: x, y, xy, interpolation, element and pair labels, a formula signature) x {no, one, three} unused extra variables x '
         '{direct, nested: a variable defined through another variable, ${SECTION:KEY} cross references incl. one that itself contains a placeholder}; '
         'oracle: parsed lists and output bytes identical to those of the literally substituted file; non-trivial = at least one literal lifted or one extra variable')
+RULE += "; structured cases: variable chains with overrides of the base variable, same-section references (also shadowing a like-named variable), override values containing placeholders and '=', a compound variable used twice in one entry, twelve sibling placeholders each defined through another, a parameter-store section reached through a nested placeholder, every value written on the line after its key"
 ASSUMPTIONS = [
     'relational oracle: the substituted file is rendered by the generator from the same template, parsed and tabulated by the same implementation',
     'variable names avoid the characters the placeholder syntax cannot carry (":", "}", "$")',
